@@ -4,6 +4,7 @@ import (
 	"bytes"
 	"io"
 	"strings"
+	"time"
 )
 
 // Reference ARDOP TNC emulator for the CRC-protected serial host interface,
@@ -176,15 +177,29 @@ func (e *emuARDOP) Close() error {
 	return nil
 }
 
+// a PTT controller with latency when keying up (rig control over a serial
+// line): requests must still take effect in the order they were issued
 type recPTT struct{ events []bool }
 
-func (p *recPTT) SetPTT(on bool) error { p.events = append(p.events, on); return nil }
+func (p *recPTT) SetPTT(on bool) error {
+	if on {
+		time.Sleep(10 * time.Millisecond)
+	}
+	p.events = append(p.events, on)
+	return nil
+}
 
 // C14 K5: open, dial, write (with CRCFAULT retransmission), receive, close —
 // the real TNC control loop, broadcaster and connection against the emulator
 func H_c14_session() {
-	emu := &emuARDOP{toHost: make(chan []byte, 256), faults: symInt(0, 2), pttPlan: symInt(0, 1) == 1}
-	early := symBytes(symInt(0, 2))
+	// the junk-message variants run with the plain configuration of the other dimensions
+	junk := [...]string{"", "BUFFER x", "BUFFER 0 0 0 0 0", "NEWSTATE FOO", "BUFFER", "FREQUENCY", "PING"}[symInt(0, symParam("JUNK", 7)-1)]
+	emu := &emuARDOP{toHost: make(chan []byte, 256)}
+	var early []byte
+	if junk == "" {
+		emu.faults, emu.pttPlan = symInt(0, 2), symInt(0, 1) == 1
+		early = symBytes(symInt(0, 2))
+	}
 	emu.early = early
 	tnc, err := Open(emu, "N0CALL", "JP20QE")
 	symAssert(err == nil && tnc != nil, "open-ok")
@@ -197,6 +212,11 @@ func H_c14_session() {
 	symAssert(err == nil && n == len(p), "write-returns-bytes-accepted")
 	if f, ok := conn.(interface{ Flush() error }); ok {
 		symAssert(f.Flush() == nil, "flush-ok")
+	}
+	// a malformed or unexpected control message from the TNC in the middle of
+	// the session must not kill the control loop
+	if junk != "" {
+		emu.say(junk)
 	}
 	// inbound ARQ payloads, read with a small buffer
 	in1, in2 := symBytes(symInt(1, 3)), symBytes(symInt(0, 2))
@@ -226,10 +246,14 @@ func H_c14_session() {
 	if emu.pttPlan {
 		wantPTT = append(wantPTT, true, false)
 	}
-	symAssert(len(ptt.events) == len(wantPTT), "ptt-request-count")
+	time.Sleep(100 * time.Millisecond) // every request has taken effect by now, however it was dispatched
+	okPTT := len(ptt.events) == len(wantPTT)
 	for i := range wantPTT {
-		symAssert(i < len(ptt.events) && ptt.events[i] == wantPTT[i], "ptt-requests-in-order")
+		if i >= len(ptt.events) || ptt.events[i] != wantPTT[i] {
+			okPTT = false
+		}
 	}
+	symAssert(okPTT, "ptt-requests-reach-the-controller-in-order")
 	// command sequence: initialisation, call, disconnect on close
 	seq := strings.Join(emu.cmds, "|")
 	symAssert(strings.HasPrefix(seq, "INITIALIZE|STATE|PROTOCOLMODE ARQ|ARQTIMEOUT "), "initialisation-commands")
